@@ -194,6 +194,22 @@ func (tr *trace) all() []*itemRec {
 	return out
 }
 
+// rerunAfterCancel: this execution is a re-run of a function whose previous execution returned after the
+// cancellation of cycle c (only a service worker's restart loop can produce one).
+func (it *itemRec) rerunAfterCancel(tr *trace, c *cycle) bool {
+	if c.cancel < 0 || it.mod != c.mod {
+		return false
+	}
+	var prev *itemRec
+	for _, x := range tr.items[fmt.Sprintf("%d/%s", it.mod, it.id)] {
+		if x == it {
+			break
+		}
+		prev = x
+	}
+	return prev != nil && prev.exit > c.cancel && it.enter > prev.exit
+}
+
 // byExit finds the execution that ended at event idx.
 func (tr *trace) byExit(key string, idx int) *itemRec {
 	for _, it := range tr.items[key] {
@@ -377,6 +393,11 @@ func monitorLines(lines []string) (vs []hxlib.Violation) {
 			last := c.tCancel
 			allEarly := true
 			for _, it := range tr.all() {
+				if it.rerunAfterCancel(tr, c) {
+					// the implementation ran the function of a service worker again although it had returned after the
+					// cancellation: the piece of work that was running has returned; the re-runs are not new work
+					continue
+				}
 				if it.mod == c.mod && it.enter < e.idx && (it.exit < 0 || it.exit > c.begin) {
 					if it.exit < 0 || it.exit > e.idx {
 						allEarly = false
